@@ -791,7 +791,9 @@ class AbsExpression(FunctionExpression):
         return "abs"
 
     def operate(self, value: NumberType) -> NumberType:
-        return np.absolute(value)
+        # NOTE: np.absolute turns python ints into int64, and later arithmetic on
+        #       the result silently wraps at 64 bits. The builtin keeps ints exact.
+        return abs(value)
 
 
 class SgnExpression(FunctionExpression):
